@@ -10,5 +10,5 @@ PYTHONPATH=$W/src timeout 900 /venv/bin/python $D/demo.py >/dev/null 2>&1; echo 
 if ! git apply $D/patch.diff 2>/tmp/apply.err; then echo "PATCH DOES NOT APPLY: $(head -2 /tmp/apply.err)"; git -C /repo worktree remove --force $W; exit 8; fi
 PYTHONPATH=$W/src timeout 900 /venv/bin/python $D/demo.py >/dev/null 2>&1; echo "demo-with-patch exit=$?"
 cd /verif
-VERIF_REPO=$W timeout 3000 ./check $PID "$@" 2>&1 | grep -E "^(VIOLATION|KNOWN|UNDECIDED|\[C|ENGINE|NOTE)" | cut -c1-200 | head -8
+VERIF_EVIDENCE_DIR=/tmp/verif_scratch_evidence VERIF_REPO=$W timeout 3000 ./check $PID "$@" 2>&1 | grep -E "^(VIOLATION|KNOWN|UNDECIDED|\[C|ENGINE|NOTE)" | cut -c1-200 | head -8
 git -C /repo worktree remove --force $W
